@@ -431,6 +431,142 @@ def closeReturns (s : ConnSt) : Bool := s.installed && (s.eventSet || !s.session
 /-- a schedule of the repaired `connect`: login and installation are one step -/
 def fixedSchedule (evs : List ConnEv) : Bool := evs.all fun e => e == .loginAndInstall || e == .sessionCloses
 
+/-! ### `SyncExecutor.execute` / `execute_sync` / `_wait_for` when the coroutine itself ends with an exception
+
+The transition system above keeps `_wait_for` as ONE statement (`Pc.wait`) and its coroutines never raise by themselves.
+This part is the loop inside that statement, line by line, for a coroutine that finishes with *any* outcome:
+
+    deadline = None if timeout is None else time.monotonic() + timeout
+    while True:
+        wait = self._POLL if deadline is None else min(self._POLL, max(0.0, deadline - time.monotonic()))
+        try:
+            return future.result(timeout=wait)
+        except concurrent.futures.TimeoutError:
+            if future.done():
+                raise
+            if deadline is not None and time.monotonic() >= deadline:
+                raise
+            if not self._thread.is_alive() and not future.done():
+                future.cancel()
+                raise StateError(...)
+
+On Python >= 3.11 `concurrent.futures.TimeoutError is asyncio.TimeoutError is TimeoutError` (and `socket.timeout`): the
+`except` clause also catches a TimeoutError that `future.result()` re-raises because the COROUTINE ended with it
+(`asyncio.wait_for(session.receive_msg(), t)` against a silent peer).  `future.done()` is then true and `raise` hands the
+coroutine's own exception on.  What the environment contributes to one pass of the loop is a `Pass` record; the thread
+scheduler, the clock and the loop thread are not modelled, every sequence of `Pass` records is allowed. -/
+
+/-- exception classes, as far as the two `except` clauses and the caller can tell them apart -/
+inductive Exc where
+  | timeout       -- the coroutine's own TimeoutError (builtin = asyncio = concurrent.futures = socket.timeout: one class)
+  | timeoutSub    -- the coroutine's own exception of a SUBCLASS of TimeoutError (OSError(ETIMEDOUT), user classes)
+  | expiry        -- a TimeoutError made by `future.result(timeout)` / `execute` because a wait expired (never the coroutine's)
+  | cancelled     -- CancelledError: the coroutine was cancelled / raised it (the concurrent future is cancelled)
+  | state         -- StateError
+  | eoq           -- EndOfQueue
+  | value         -- ValueError
+  | other         -- any other Exception subclass
+  | base          -- a BaseException subclass that is no Exception
+  deriving DecidableEq, Repr, Inhabited
+
+/-- `isinstance(e, concurrent.futures.TimeoutError)` -/
+def Exc.isTimeout : Exc → Bool
+  | .timeout | .timeoutSub | .expiry => true
+  | _ => false
+
+def Exc.name : Exc → String
+  | .timeout => "timeout" | .timeoutSub => "timeoutSub" | .expiry => "expiry" | .cancelled => "cancelled"
+  | .state => "state" | .eoq => "eoq" | .value => "value" | .other => "other" | .base => "base"
+
+/-- how the coroutine (hence the future) ends -/
+inductive Fin where
+  | returned
+  | raised (e : Exc)
+  deriving DecidableEq, Repr, Inhabited
+
+/-- how the call on the executor ends -/
+inductive Res where
+  | returned            -- the coroutine's value
+  | raised (e : Exc)
+  deriving DecidableEq, Repr, Inhabited
+
+/-- `future.result()` of a finished future -/
+def deliver : Fin → Res
+  | .returned => .returned
+  | .raised e => .raised e
+
+/-- what one pass of the `while True:` observes -/
+structure Pass where
+  completes : Bool      -- the future is done by the end of this slice: `result(timeout=wait)` hands out its outcome
+  doneAtCheck : Bool    -- else the slice expired; `future.done()` in the handler (it may have completed in between)
+  deadline : Bool       -- `deadline is not None and time.monotonic() >= deadline`
+  alive : Bool          -- `self._thread.is_alive()`
+  doneAtCheck2 : Bool   -- the second `future.done()`, in `not alive and not future.done()`
+  deriving DecidableEq, Repr, Inhabited
+
+/-- one pass: `some r` = the loop is left with `r`; `none` = next pass -/
+def passStep (fin : Fin) (p : Pass) : Option Res :=
+  -- try: return future.result(timeout=wait)
+  let r : Res := if p.completes then deliver fin else .raised .expiry
+  match r with
+  | .returned => some .returned
+  | .raised e =>
+    if e.isTimeout then
+      -- except concurrent.futures.TimeoutError:   (the slice's expiry OR the coroutine's own TimeoutError)
+      if p.completes || p.doneAtCheck then some (.raised e)                       -- if future.done(): raise
+      else if p.deadline then some (.raised e)                                     -- deadline reached: raise
+      else if !p.alive && !p.doneAtCheck2 then some (.raised .state)               -- future.cancel(); raise StateError
+      else none
+    else some (.raised e)                                                          -- any other exception: not caught here
+
+/-- this pass ends the loop, whatever the coroutine's outcome is (`Props/C20Raise.C20_wait_continues_iff`) -/
+def Pass.ends (p : Pass) : Bool := p.completes || p.doneAtCheck || p.deadline || (!p.alive && !p.doneAtCheck2)
+
+/-- a pass in which nothing happens: the slice expires, the future is not done, no deadline reached, thread alive -/
+def Pass.quiet (p : Pass) : Bool := !p.ends
+
+/-- `_wait_for` over the passes the environment provides; `none` = still inside the loop after all of them -/
+def waitFor (fin : Fin) : List Pass → Option Res
+  | [] => none
+  | p :: ps =>
+    match passStep fin p with
+    | some r => some r
+    | none => waitFor fin ps
+
+/-- number of passes `_wait_for` makes before it leaves the loop (all of them if it does not) -/
+def passesUsed (fin : Fin) : List Pass → Nat
+  | [] => 0
+  | p :: ps =>
+    match passStep fin p with
+    | some _ => 1
+    | none => 1 + passesUsed fin ps
+
+/-- `execute(underlying, timeout)`:
+      self._must_be_active();  if not iscoroutine(underlying): raise ValueError
+      future = run_coroutine_threadsafe(...)
+      try: return self._wait_for(future, timeout)
+      except concurrent.futures.TimeoutError:
+          if future.done(): raise            # raised by the coroutine itself
+          future.cancel();  raise asyncio.TimeoutError(...)                                           -/
+def execute (aliveAtCall isCoroutine : Bool) (fin : Fin) (passes : List Pass) (doneAtHandler : Bool) : Option Res :=
+  if !aliveAtCall then some (.raised .state)
+  else if !isCoroutine then some (.raised .value)
+  else
+    match waitFor fin passes with
+    | none => none
+    | some .returned => some .returned
+    | some (.raised e) =>
+      if e.isTimeout then (if doneAtHandler then some (.raised e) else some (.raised .expiry))
+      else some (.raised e)
+
+/-- `execute_sync(underlying, *args)`: `_must_be_active()`, `callable(underlying)` else ValueError, then
+    `execute(self._bridge(underlying, …))` (the second `_must_be_active` sees `aliveAtCall2`) -/
+def executeSync (aliveAtCall isCallable aliveAtCall2 : Bool) (fin : Fin) (passes : List Pass) (doneAtHandler : Bool) :
+    Option Res :=
+  if !aliveAtCall then some (.raised .state)
+  else if !isCallable then some (.raised .value)
+  else execute aliveAtCall2 true fin passes doneAtHandler
+
 /-! ### deterministic pseudo-random walk (for the driver: schedules are generated from the model) -/
 def lcg (x : Nat) : Nat := (x * 6364136223846793005 + 1442695040888963407) % 18446744073709551616
 
